@@ -28,8 +28,9 @@ def rule_token_conv(ctx: Ctx, rid="C05.TOKEN-CONV"):
         tok = r.func.args.args[1].arg if len(r.func.args.args) > 1 else "t"
         rew = [x.replace(f"{tok}.value", "t.value") for x in a.value_rewrites]
         kind = k[1] if k and k[0] == "value" else None
-        if k and k[0] in ("unsupported", "raises"):
-            ctx.rep.bad(rid, con, f"the token action transforms the literal in a way that is not a plain conversion: {k[1]}",
+        note = ctx.pipeline.token_kind_notes.get(r.name)
+        if note or (k and k[0] == "raises"):
+            ctx.rep.bad(rid, con, f"the token action transforms the literal in a way that is not a plain conversion: {note or k[1]}",
                         site=r.site, text=norm(r.func)[:200])
             continue
         ok = kind in ACCEPTED_CONVERSIONS and len(rew) == 1 and rew[0] in ACCEPTED_CONVERSIONS[kind] and not a.other_calls == ["x"] \
@@ -86,7 +87,11 @@ def check(rep):
     rule_number_order(ctx)
     LR.rule_string_minimal(ctx)
     rule_grammar_literals(ctx)
-    PR.rule_compiles(ctx, rid="C05.SHAPE-COMPILES")
+    PR.rule_compiles(ctx, rid="C05.SHAPE-COMPILES", strict=False)
+    from . import evalrules as ER
+    ER.rule_value_keyed_caches(ctx, rid="C05.NO-VALUE-KEYED-CACHE",
+                               modules={"codegen/python/python_generator.py", "language/grammar.py", "language/lexer.py",
+                                        "data_structures/syntax_tree.py", "utils/wraper_functions.py"})
     PR.rule_coercions(ctx)
     PR.rule_renderers(ctx)
     PR.rule_literal_terms(ctx)
